@@ -23,6 +23,7 @@ TPTP_EXTRA = [
     "p(X) <- q(X) <- r", "(p(X) -> q(X)) -> r", "p(X) -> (q(X) -> r)", "p(X) and q(X) or r", "p(X) and (q(X) or r)", "not p(X) and q(X)", "not (p(X) and q(X))",
     "forall X (p(X)) and q(X)", "forall X (p(X) and q(X))", "p(X) <-> q(X) <-> r", "exists X (forall Y (t(X, Y)) or exists Z (t(Z, X)))", "#true -> #false",
     "not #true", "X = X", "1 = 1", "a = a", "a != b", "1 < a", "a < #sup", "#inf < 1", "1 + 1 = 2", "2 * 3 != 6", "forall X$i Y$i (X$i * Y$i = Y$i * X$i)",
+    "p(-(-3))", "X$i = -(-1)", "-(-2) < N$i", "-(-(-2))  = N$i", "N$i * -(-3) > -(3)", "p(-(0))", "-n < 0", "-(-n) = n", "p(-n)", "forall N$i (-N$i = n -> p(-(-n)))",
     "s = n", "forall X (X = s -> p(X))", "1 <= n <= 2", "not 1 <= n <= c", "1 < 2 < 3 -> r", "r -> 1 < 2 < 3", "r <- X < Y < Z", "not X = Y", "not X$i = 1",
 ]
 
